@@ -1,6 +1,6 @@
 (* C15, stage 5a: the typedef and const productions, every layout. *)
 From PVIdl Require Import Comb Ast Parser Print Proofs.Total Proofs.RoundTok Proofs.RoundPath Proofs.RoundAnn Proofs.RoundTy
-  Proofs.RoundKit Proofs.RoundNum Proofs.RoundConst Proofs.RoundDecl.
+  Proofs.RoundKit Proofs.Lex Proofs.RoundNum Proofs.RoundConst Proofs.RoundDecl.
 From Coq Require Import ZifyN ZifyNat ZifyBool.
 From Coq Require String.
 Import String.StringSyntax.
@@ -40,7 +40,7 @@ Qed.
 (* const <blank> T <blank> name [blank] = [blank] value [blank] [annotations] [separator] *)
 Theorem rt_constant eof c k :
   wf_constant eof c = true -> (eof = true -> k = []) -> nosep k = true ->
-  (tail_open (ck_tail c) = true -> stop k = true) -> (constant_ends_word c = true -> wstop k = true) ->
+  (tail_open (ck_tail c) = true -> stop k = true) -> (tail_bare (ck_tail c) = true -> cfollow lf (ck_val c) k) ->
   sfx (pr_constant c k) whole ->
   p_constant lf df (pr_constant c k) = POk k (erase_constant c).
 Proof.
@@ -58,8 +58,11 @@ Proof.
   rewrite (rt_ident name) by (assumption || hdt). cbn [pbind].
   obk lf whole Hlf S ltac:(reflexivity). tg sym_const_eq (txt "=").
   obk lf whole Hlf S ltac:(now apply const_nb).
-  assert (Fv : cvfollow (const_ends_word v) (const_is_path v) (pr_tail tl k)).
-  { apply (cvfollow_tail eof); auto. intros E1 E2. apply Hew. now rewrite E1, E2. }
+  assert (Fv : cfollow lf v (pr_tail tl k)).
+  { destruct (tail_bare tl) eqn:Eb.
+    - specialize (Hew eq_refl). destruct tl as [bl a sp]. unfold tail_bare in Eb. cbn [t_b t_anns t_sep] in Eb. bsplit Eb.
+      destruct bl; [|discriminate]. destruct a; [discriminate|]. destruct sp; [|discriminate]. exact Hew.
+    - apply (cvfollow_cfollow lf whole Hlf); [|sfx_of S]. apply (cvfollow_tail eof); auto. intros _ E2. congruence. }
   rewrite (rt_const lf whole Hlf df v _ (cv_depth_sfx whole df v _ ltac:(sfx_of S) Hdf) ltac:(assumption) Fv) by (sfx_of S).
   cbn [pbind].
   destruct (tail_steps lf whole Hlf eof tl k ltac:(assumption) He Hns Hop ltac:(sfx_of S)) as (o1 & o3 & E1 & E2 & E3).
